@@ -1,11 +1,101 @@
-(* C05 - captured one-line helper functions are inlined faithfully.  Statements only. *)
+(* C05 - captured one-line helper functions are inlined faithfully.
+   Statements only; proofs in Proofs/CaptureProofs.v and Proofs/CaptureSem.v.
+   [res]/[resolve_called] model _resolve_called_lambdas with fixes F06, F07 (shadowing), FC2 applied. *)
 From FA.Base Require Import PyAst Value Eval Traverse.
 From FA.Model Require Import Capture.
 From FA.Proofs Require Import Refine CaptureProofs CaptureSem.
 
+(* --- inline_sem (partial) ---
+   "Inlining = Python's call semantics": Base/Eval.v evaluates [Call (Lambda ps b) args] by Python's positional
+   binding, call by value; [resolve_called] replaces such calls by the substituted body and must preserve the value.
+   Full statement aimed at:  eval E e = Some v -> resolve_called e = Ok e' -> eval E e' = Some v  for every e whose
+   inlined bodies do not bind a free name of a substituted argument.
+   Proved: for every backend, on the fragment [fragr true] - any nesting of called lambdas (helpers inside helpers'
+   arguments and bodies, inside lambdas of Select/Where/... and inside comprehensions), positional calls of matching
+   arity - with the hygiene hypothesis in its syntactic form: inside the body of an inlined lambda no lambda /
+   comprehension binder stays ([fragr false] has no binder constructor).  Missing: bodies with staying binders
+   (needs the weakening lemma of the semantics plus "no argument name is bound inside the body"; without that
+   hypothesis the statement is false, see [inline_capture_open]); keyword calls (left as calls, FC2). *)
+Theorem inline_sem_partial :
+  forall (B : backend) (ops : list string) e e' E v,
+    fragr true e -> resolve_called e = Ok e' ->
+    eval B ops E e = Some v -> eval B ops E e' = Some v.
+Proof. exact inline_sem_frag. Qed.
+Print Assumptions inline_sem_partial.
+
+(* the engine behind it, for an arbitrary stack of argument maps *)
+Theorem inline_sem_engine :
+  forall (B : backend) (ops : list string) cl e, fragr cl e ->
+    forall st E1 E2, (cl = true -> closed_st st) -> Rr B ops st E1 E2 ->
+    forall v, eval B ops E1 e = Some v -> eval B ops E2 (res st e) = Some v.
+Proof. intros B ops cl e H st E1 E2 Hc HR. exact (proj1 (sem_engine B ops) cl e H st E1 E2 Hc HR). Qed.
+Print Assumptions inline_sem_engine.
+
+(* --- inline_leaves_by_name: a callable that cannot be inlined (source not a single-return function, or not
+   captured at all) stays a call by name, with the same number of arguments and keywords --- *)
+Theorem inline_leaves_by_name :
+  forall ce h args kwn kwv e',
+    not_inlinable ce h ->
+    parse_callable ce (Call (Name h) args kwn kwv) = Ok e' ->
+    exists args' kwv', e' = Call (Name h) args' kwn kwv' /\ length args' = length args /\ length kwv' = length kwv.
+Proof. exact call_stays_by_name. Qed.
+Print Assumptions inline_leaves_by_name.
+
+(* ---------- Examples ---------- *)
+Definition B0 : backend := {| attr_sem := fun _ _ => None; meth_sem := fun _ _ _ _ => None; fun_sem := fun _ _ _ => None |}.
+Definition glob (l : list (string * capval)) : cenv := {| ce_nonlocals := []; ce_globals := l; ce_attrs := [] |}.
+
 (* param-only helper body (F06): def h(p): return p ; lambda e: h(e.x)  records  lambda e: e.x *)
 Example inline_param_only :
-  parse_callable {| ce_nonlocals := []; ce_globals := [("h", CFun (Some (Lambda ["p"] (Name "p"))))]; ce_attrs := [] |}
+  parse_callable (glob [("h", CFun (Some (Lambda ["p"] (Name "p"))))])
     (Lambda ["e"] (Call (Name "h") [Attr (Name "e") "x"] [] []))
   = Ok (Lambda ["e"] (Attr (Name "e") "x")).
 Proof. vm_compute. reflexivity. Qed.
+
+(* an inner lambda re-using the helper's parameter name is not substituted into (F07) *)
+Example inline_inner_shadow :
+  parse_callable (glob [("h", CFun (Some (Lambda ["a"]
+                    (Call (Attr (Attr (Name "a") "jets") "Select") [Lambda ["a"] (Attr (Name "a") "pt")] [] []))))])
+    (Lambda ["e"] (Call (Name "h") [Name "e"] [] []))
+  = Ok (Lambda ["e"] (Call (Attr (Attr (Name "e") "jets") "Select") [Lambda ["a"] (Attr (Name "a") "pt")] [] [])).
+Proof. vm_compute. reflexivity. Qed.
+
+(* nested helpers: the inner helper of a helper body stays a call by name; helper calls in arguments are all inlined *)
+Example inline_nested :
+  parse_callable (glob [("h2", CFun (Some (Lambda ["a"; "b"] (BinOp BSub (Name "a") (Name "b")))));
+                        ("h4", CFun (Some (Lambda ["a"] (BinOp BAdd (Call (Name "h2") [Name "a"; Const (CInt 1)] [] []) (Const (CInt 1))))))])
+    (Lambda ["e"] (Tuple [Call (Name "h4") [Attr (Name "e") "z"] [] [];
+                          Call (Name "h2") [Call (Name "h2") [Attr (Name "e") "x"; Const (CInt 1)] [] []; Attr (Name "e") "y"] [] []]))
+  = Ok (Lambda ["e"] (Tuple [BinOp BAdd (Call (Name "h2") [Attr (Name "e") "z"; Const (CInt 1)] [] []) (Const (CInt 1));
+                             BinOp BSub (BinOp BSub (Attr (Name "e") "x") (Const (CInt 1))) (Attr (Name "e") "y")])).
+Proof. vm_compute. reflexivity. Qed.
+
+(* keyword / re-ordered calls are left as a call of the helper's lambda (Python binds them; FC2) *)
+Example inline_keywords_left :
+  parse_callable (glob [("h", CFun (Some (Lambda ["a"; "b"] (BinOp BSub (Name "a") (Name "b")))))])
+    (Lambda ["e"] (Call (Name "h") [] [Some "b"; Some "a"] [Attr (Name "e") "x"; Attr (Name "e") "y"]))
+  = Ok (Lambda ["e"] (Call (Lambda ["a"; "b"] (BinOp BSub (Name "a") (Name "b"))) [] [Some "b"; Some "a"]
+                           [Attr (Name "e") "x"; Attr (Name "e") "y"])).
+Proof. vm_compute. reflexivity. Qed.
+
+(* the hypotheses of inline_sem_partial are met by a real query and the values agree *)
+Example inline_sem_runs :
+  let h := Lambda ["a"; "b"] (BinOp BSub (Name "a") (Name "b")) in
+  let q := Call (Attr (Name "s") "Select") [Lambda ["j"] (Call h [Name "j"; Call h [Name "k"; Const (CInt 1)] [] []] [] [])] [] [] in
+  fragr true q /\
+  eval B0 ["Select"] [("s", VList [VInt 10; VInt 20]); ("k", VInt 3)] q = Some (VList [VInt 8; VInt 18]) /\
+  eval B0 ["Select"] [("s", VList [VInt 10; VInt 20]); ("k", VInt 3)] (res [] q) = Some (VList [VInt 8; VInt 18]) /\
+  res [] q = Call (Attr (Name "s") "Select") [Lambda ["j"] (BinOp BSub (Name "j") (BinOp BSub (Name "k") (Const (CInt 1))))] [] [].
+Proof.
+  split; [repeat (constructor; try reflexivity)|]. split; [vm_compute; reflexivity|]. split; vm_compute; reflexivity.
+Qed.
+
+(* OPEN FINDING (no small fix): the hygiene hypothesis is necessary.  def h(a): return a.jets.Select(lambda j: j.pt + a.pt),
+   passed lambda  lambda j: h(j) : the argument's name is captured by the binder inside the helper body. *)
+Example inline_capture_open :
+  let h := Lambda ["a"] (Call (Attr (Attr (Name "a") "jets") "Select")
+                              [Lambda ["j"] (BinOp BAdd (Attr (Name "j") "pt") (Attr (Name "a") "pt"))] [] []) in
+  let q := Call h [Name "j"] [] [] in
+  let E := [("j", VDict [VStr "pt"; VStr "jets"] [VInt 10; VList [VDict [VStr "pt"] [VInt 1]]])] in
+  eval B0 ["Select"] E q = Some (VList [VInt 11]) /\ eval B0 ["Select"] E (res [] q) = Some (VList [VInt 2]).
+Proof. split; vm_compute; reflexivity. Qed.
